@@ -20,10 +20,11 @@ import (
 type Kind int
 
 const (
-	Pure  Kind = iota // int-valued, no I/O, int parameters
-	Proc              // arbitrary tail statement; only called for effect
-	Gen               // yields ints; int parameters
-	Maker             // returns a closure of one int argument
+	Pure    Kind = iota // int-valued, no I/O, int parameters
+	Proc                // arbitrary tail statement; only called for effect
+	Gen                 // yields ints; int parameters
+	Maker               // returns a closure of one int argument
+	ArrPure             // pure, returns an array (may hold nil); never used inside generated expressions
 )
 
 // Def is one global function definition (a complete top-level statement).
@@ -699,6 +700,36 @@ func (g *G) DefPure() Def {
 	}
 	d := Def{Name: name, Src: src, Kind: Pure, Arity: ar, Feat: feats}
 	g.Defs = append(g.Defs, d)
+	return d
+}
+
+// DefCondLocals adds a pure function most of whose locals are assigned only on a path that is not
+// taken: reading them gives nil (Readme: a name with no value is nil; the repository's own
+// "uninitialised local" test). Its frame is k+2 slots wide, so the slots it does not write are
+// whatever the stack held there unless PushFrame clears them.
+func (g *G) DefCondLocals() Def {
+	name := "fn" + letters(g.nFn)
+	g.nFn++
+	k := []int{2, 5, 20, 60, 127, 130}[g.T.Draw(6)]
+	var lines []string
+	lines = append(lines, "if n > 1000 {")
+	for i := 0; i < k; i++ {
+		lines = append(lines, PadName(i)+" = n + "+fmt.Sprint(i))
+	}
+	lines = append(lines, "}", "m = n * 2")
+	if g.T.Bool() { // some of them assigned on the taken path, after a nested call that uses the stack above the frame
+		lines = append(lines, PadName(k/2)+" = deep(n) + 1")
+		g.NeedDeep = true
+	}
+	pick := []int{0, k / 2, k - 1}
+	var el []string
+	for _, i := range pick {
+		el = append(el, PadName(i))
+	}
+	lines = append(lines, "["+strings.Join(el, ", ")+", m]")
+	d := Def{Name: name, Src: name + " = (n) -> " + block(lines), Kind: ArrPure, Arity: 1, Feat: []string{"def.cond_locals"}}
+	g.Defs = append(g.Defs, d)
+	g.feat("def.cond_locals")
 	return d
 }
 
